@@ -542,8 +542,10 @@ impl<'p> From<&'p Program> for ControlFlowGraph<'p> {
                             instruction_index_offset,
                             terminator: BasicBlockTerminator::Continue,
                         };
-                        // +1 for the label
-                        instruction_index_offset += block.instructions.len() + 1;
+                        // +1 for this block's own label, if it has one
+                        let label_instruction_offset = if block.label().is_some() { 1 } else { 0 };
+                        instruction_index_offset +=
+                            block.instructions.len() + label_instruction_offset;
                         graph.blocks.push(block);
                     }
 
